@@ -339,10 +339,6 @@ impl Compiler {
 
         self.push_span(node, ctx.ast);
 
-        if !self.frame_stack.is_empty() {
-            self.frame_mut().last_node_was_return = matches!(&node.node, Node::Return(_));
-        }
-
         let result = match &node.node {
             Node::Null => {
                 let result = self.assign_result_register(ctx)?;
@@ -646,6 +642,12 @@ impl Compiler {
                 unreachable!();
             }
         };
+
+        // Updated after the node has been compiled, nested nodes (e.g. a `return` in the body of
+        // an `if`) shouldn't be mistaken for the frame's last expression.
+        if !self.frame_stack.is_empty() {
+            self.frame_mut().last_node_was_return = matches!(&node.node, Node::Return(_));
+        }
 
         self.pop_span();
 
